@@ -42,5 +42,5 @@ TDone == /\ l = Len(T) + 1 /\ l' = l + 1 /\ tid' = tid /\ UNCHANGED vars /\ Acce
 TNext == TStep \/ TCompare \/ TDone
 TSpec == TInit /\ [][TNext]_tvars
 
-TWS == {" ", "\t", "\n", "\r"}
+TWS == {" ", "\t", "\n", "\r", "\f", "<VT>", "<FS>", "<NEL>", "<NBSP>", "<EMSP>", "<IDSP>"}
 =============================================================================
